@@ -27,6 +27,7 @@ type SpecEnv struct {
 	pkg  *types.Package
 	fn   *ssa.Function
 	depth int
+	qd   int   // quantifier nesting depth (bound variables are named deterministically so that equal formulas are syntactically equal)
 	lp   *Loop // loop whose contract is being evaluated (before its frame is pushed)
 }
 
@@ -173,15 +174,20 @@ func (env *SpecEnv) eval(x *SExpr) Val {
 			if len(sh) != 1 {
 				specFail("quantified variable %s must have a single-leaf type", v.Name)
 			}
-			env.st.eng.counter++
-			nm := sym(fmt.Sprintf("%s?%d", v.Name, env.st.eng.counter))
+			nm := sym(fmt.Sprintf("%s?q%d", v.Name, ne.qd))
 			binders = append(binders, "("+nm+" "+sh[0].Sort+")")
 			ne = ne.with(v.Name, Val{T: t, Terms: []string{nm}})
+			ne.qd++
 			if isIntT(t) {
 				// Go ints are bounded; quantify over mathematical integers (superset) - no guard needed
 			}
 			if sh[0].Ref {
-				guards = append(guards, app("<=", "0", nm))
+				// references range over the objects that exist in the state the formula is evaluated in
+				al := env.st.alloc
+				if env.cur != nil && env.cur.Alloc != "" {
+					al = env.cur.Alloc
+				}
+				guards = append(guards, app("<=", "0", nm), app("<", nm, al))
 			}
 		}
 		body := ne.evalBool(x.Args[0])
@@ -446,6 +452,18 @@ func (env *SpecEnv) evalSlice(x *SExpr) Val {
 }
 
 func (env *SpecEnv) evalUn(x *SExpr) Val {
+	if x.Name == "&" {
+		// address of a heap-allocated local variable
+		if x.Args[0].Op == "ident" && env.fn != nil {
+			if a := env.st.eng.localByName(env.fn, x.Args[0].Name); a != nil {
+				if r, ok := env.st.regs[a]; ok && r.Loc == nil {
+					return r
+				}
+				specFail("&%s: the variable is not heap-allocated (its address never escapes)", x.Args[0].Name)
+			}
+		}
+		specFail("& is only supported on local variables")
+	}
 	v := env.eval(x.Args[0])
 	switch x.Name {
 	case "!":
@@ -664,8 +682,7 @@ func (env *SpecEnv) evalCall(x *SExpr) Val {
 	case "inseq":
 		// inseq(x, s): exists k in range with s[k] == x
 		xv, sv := arg(0), arg(1)
-		env.st.eng.counter++
-		k := sym(fmt.Sprintf("k?%d", env.st.eng.counter))
+		k := sym(fmt.Sprintf("k?q%d", env.qd+20))
 		var cs []string
 		for i := range xv.Terms {
 			cs = append(cs, eq(sel(sv.Terms[2+i], k), xv.Terms[i]))
@@ -673,9 +690,8 @@ func (env *SpecEnv) evalCall(x *SExpr) Val {
 		return mkBool(fmt.Sprintf("(exists ((%s Int)) %s)", k, and(append([]string{app("<=", "0", k), app("<", k, sv.Terms[0])}, cs...)...)))
 	case "sorted":
 		sv := arg(0)
-		env.st.eng.counter++
-		i := sym(fmt.Sprintf("i?%d", env.st.eng.counter))
-		j := sym(fmt.Sprintf("j?%d", env.st.eng.counter))
+		i := sym(fmt.Sprintf("i?q%d", env.qd+20))
+		j := sym(fmt.Sprintf("j?q%d", env.qd+20))
 		return mkBool(fmt.Sprintf("(forall ((%s Int) (%s Int)) (=> (and (<= 0 %s) (< %s %s) (< %s %s)) (str.<= (select %s %s) (select %s %s))))",
 			i, j, i, i, j, j, sv.Terms[0], sv.Terms[2], i, sv.Terms[2], j))
 	case "mapref":
@@ -707,8 +723,7 @@ func (env *SpecEnv) seqEq(a Val, ai string, b Val, bi string, n string, full boo
 	if !isSlice(a.T) || !isSlice(b.T) {
 		specFail("sequence comparison on non-slices %v %v", a.T, b.T)
 	}
-	env.st.eng.counter++
-	k := sym(fmt.Sprintf("k?%d", env.st.eng.counter))
+	k := sym(fmt.Sprintf("k?q%d", env.qd+20))
 	var cs []string
 	ib := k
 	if ai != bi {
@@ -760,7 +775,14 @@ func (env *SpecEnv) callSpecFunc(sf *SpecFunc, x *SExpr) Val {
 		ne.pkg = p
 	}
 	ne.fn = nil
-	return ne.eval(sf.Body)
+	res := ne.eval(sf.Body)
+	// name large closed results so that repeated uses (e.g. in every clause of a callee contract) stay small
+	if env.qd == 0 && len(res.Terms) == 1 && len(res.Terms[0]) > 160 && res.Loc == nil {
+		if sh := shapeOf(res.T); len(sh) == 1 {
+			res.Terms = []string{env.st.defineCached(sf.Name, sh[0].Sort, res.Terms[0])}
+		}
+	}
+	return res
 }
 
 func (env *SpecEnv) resolveTypeIn(txt, pkg string) types.Type {
